@@ -173,6 +173,8 @@ def generate(tier, rng):
     for c in cases:
         if c.meta.get('relevant') is None:
             c.meta.pop('relevant', None)
+    for _ in range(25 if tier == 'quick' else 500):      # cross-feature programs (gen.rich_program): every data kind, call mode and file kind mixed
+        cases.append(Case(gen.rich_program(rng), limits=dict(steps=30000), stdin=b'typed\n', meta=dict(gen='rich', sample=False)))
     return cases
 
 def intrinsic(case, io, ia):
